@@ -24,6 +24,7 @@ import (
 	"math/rand"
 	"runtime"
 	"strings"
+	"sync"
 	"time"
 
 	crdberrors "github.com/cockroachdb/errors"
@@ -162,22 +163,35 @@ func multBits(f float64) int {
 // ---- retryIn samples
 
 type riCase struct {
-	Opts    optsJ
-	K       int  // NextCh calls made before sampling
-	Reset   bool // Reset called after them
-	CurObs  int  // currentAttempt through the hook
-	Samples [][2]int64
+	DeadlineNs int64 // > 0: started with a context whose deadline is this far away
+	Opts       optsJ
+	K          int  // NextCh calls made before sampling
+	Reset      bool // Reset called after them
+	CurObs     int  // currentAttempt through the hook
+	Samples    [][2]int64
 }
 
 func runRI(o optsJ, k int, rst bool, nsamples int, seed int64) riCase {
-	r := retry.Start(o.real(nil))
+	return runRIDeadline(o, k, rst, nsamples, seed, 0)
+}
+
+// runRIDeadline: as runRI, the loop started with a context that carries a
+// deadline (the schedule must not depend on it).
+func runRIDeadline(o optsJ, k int, rst bool, nsamples int, seed int64, deadline time.Duration) riCase {
+	ctx := context.Background()
+	if deadline > 0 {
+		var cancel context.CancelFunc
+		ctx, cancel = context.WithTimeout(ctx, deadline)
+		defer cancel()
+	}
+	r := retry.StartWithCtx(ctx, o.real(nil))
 	for i := 0; i < k; i++ {
 		r.NextCh()
 	}
 	if rst {
 		r.Reset()
 	}
-	c := riCase{Opts: o, K: k, Reset: rst, CurObs: r.VerifCurrentAttempt()}
+	c := riCase{Opts: o, K: k, Reset: rst, CurObs: r.VerifCurrentAttempt(), DeadlineNs: int64(deadline)}
 	rand.Seed(seed)
 	m := rand.New(rand.NewSource(seed))
 	for i := 0; i < nsamples; i++ {
@@ -295,6 +309,8 @@ func (o optsJ) waitIsShort(k int) bool {
 }
 
 type loopRunner struct {
+	ctx      context.Context
+	deadline time.Time // non-zero: the context expires by itself then
 	o        optsJ
 	r        retry.Retry
 	closer   chan struct{}
@@ -317,8 +333,17 @@ func (lr *loopRunner) doStop(which string) {
 }
 
 func newLoopRunner(o optsJ, preClosed, preCancel bool, seed int64) *loopRunner {
+	return newLoopRunnerDeadline(o, preClosed, preCancel, seed, 0)
+}
+
+func newLoopRunnerDeadline(o optsJ, preClosed, preCancel bool, seed int64, deadline time.Duration) *loopRunner {
 	lr := &loopRunner{o: o, closer: make(chan struct{}), seed: seed}
 	ctx, cancel := context.WithCancel(context.Background())
+	if deadline > 0 {
+		lr.deadline = time.Now().Add(deadline)
+		ctx, cancel = context.WithDeadline(context.Background(), lr.deadline)
+	}
+	lr.ctx = ctx
 	lr.cancel = cancel
 	if preClosed {
 		lr.doStop("closer")
@@ -342,7 +367,15 @@ func (lr *loopRunner) next(op *loopOp) bool {
 	done := make(chan result, 1)
 	var stopBegan time.Time
 	stopDone := make(chan struct{})
-	if op.Async {
+	if op.Async && !lr.deadline.IsZero() {
+		// the concurrent stop is the context's own deadline
+		go func() {
+			stopBegan = lr.deadline
+			<-lr.ctx.Done()
+			lr.canceled = true
+			close(stopDone)
+		}()
+	} else if op.Async {
 		go func() {
 			time.Sleep(time.Duration(op.DelayNs))
 			stopBegan = time.Now()
@@ -568,6 +601,37 @@ func genStopLoop(rng *rand.Rand, class string, seed int64) loopCase {
 	return c
 }
 
+// genDeadlineLoop: a loop started with a context whose DEADLINE comes long
+// before the scheduled back-off has elapsed.  The wait after the first
+// attempt must be ended by the deadline (Next false); an attempt before the
+// lower edge of the band would mean the schedule was bent to the deadline.
+func genDeadlineLoop(rng *rand.Rand, seed int64) loopCase {
+	o := optsJ{Init: 60000000 + rng.Int63n(60000000), Mult: []float64{1, 2}[rng.Intn(2)], RF: []float64{0.125, 0.25}[rng.Intn(2)]}
+	o.Max = o.Init * 4
+	d := time.Duration(4000000 + rng.Int63n(8000000))
+	c := loopCase{Opts: o, Class: "deadline"}
+	lr := newLoopRunnerDeadline(o, false, false, seed, d)
+	defer lr.cancel()
+	for i, op := range []loopOp{{Op: "next"}, {Op: "next", Async: true, Stopper: "ctx", DelayNs: int64(d)}, {Op: "next"}, {Op: "reset"}, {Op: "next"}} {
+		ok := true
+		switch op.Op {
+		case "next":
+			if i > 1 {
+				lr.deadline = time.Time{} // expired and joined: an ordinary stopped loop from here on
+			}
+			ok = lr.next(&op)
+		case "reset":
+			lr.r.Reset()
+			op.Cur, op.IsReset = lr.r.VerifCurrentAttempt(), lr.r.VerifIsReset()
+		}
+		c.Ops = append(c.Ops, op)
+		if !ok {
+			break
+		}
+	}
+	return c
+}
+
 // fixed shapes that must always be present
 func corpusLoops(seed int64) []loopCase {
 	long := optsJ{Init: 3600000000000, Max: 3600000000000, Mult: 2, RF: 0.25}
@@ -624,20 +688,25 @@ func corpusLoops(seed int64) []loopCase {
 // ---- WithMaxAttempts
 
 type wmaCase struct {
-	Opts         optsJ
-	N            int
-	PreClosed    bool
-	PreCancel    bool
-	Pattern      []bool
-	ErrKinds     []int // what a failing call k returns: 0 "boom"; 1 context.Canceled; 2 the DeadlineExceeded of a per-attempt context; 3 a wrapper around context.Canceled; 4 errors.Wrap(context.DeadlineExceeded) — none of them from the outer context
-	StopAt       int   // call of fn during which fn stops the loop; -1 none
-	Stopper      string
-	AsyncNs      int64 // >0: a concurrent stop after this long (not deterministic)
-	Det          bool
-	Calls        int
-	Nil          bool
-	Err          string
-	GuardTripped bool
+	Opts          optsJ
+	N             int
+	PreClosed     bool
+	PreCancel     bool
+	Pattern       []bool
+	DeadlineNs    int64 // > 0: the context given to WithMaxAttempts expires this long after its creation
+	CancelAfter   int   // >= 0: that call of fn arms time.AfterFunc(CancelDelayNs, cancel): cancelled DURING the following wait
+	CancelDelayNs int64
+	Gaps          []int64    // Gaps[i]: from the end of call i (inside fn) to the start of call i+1
+	Late          [][2]int64 // calls that started after the stop was complete: (back-off index, stop complete this long after the end of the previous call)
+	ErrKinds      []int      // what a failing call k returns: 0 "boom"; 1 context.Canceled; 2 the DeadlineExceeded of a per-attempt context; 3 a wrapper around context.Canceled; 4 errors.Wrap(context.DeadlineExceeded) — none of them from the outer context
+	StopAt        int        // call of fn during which fn stops the loop; -1 none
+	Stopper       string
+	AsyncNs       int64 // >0: a concurrent stop after this long (not deterministic)
+	Det           bool
+	Calls         int
+	Nil           bool
+	Err           string
+	GuardTripped  bool
 }
 
 func (c wmaCase) coq() string {
@@ -649,8 +718,27 @@ func (c wmaCase) coq() string {
 	if c.StopAt >= 0 {
 		stop = fmt.Sprintf("(Some (%d, %s))", c.StopAt, stCoq(c.Stopper))
 	}
-	return fmt.Sprintf("(%s, %s, %s, %s, %s, %s, %s, %d, %s)", c.Opts.coq(), vh.Z(int64(c.N)), vh.Bool(c.PreClosed), vh.Bool(c.PreCancel),
-		vh.List(p), stop, vh.Bool(c.Det), c.Calls, vh.Bool(c.Nil))
+	preCancel := c.PreCancel
+	if c.DeadlineNs > 0 {
+		// the deadline falls into the first wait = a stop after call 0; if not
+		// even one call was made the context had expired before the loop began
+		stop = "(Some (0, StCtx))"
+		if c.Calls == 0 {
+			stop, preCancel = "None", true
+		}
+	}
+	if c.CancelAfter >= 0 {
+		stop = fmt.Sprintf("(Some (%d, StCtx))", c.CancelAfter)
+	}
+	var gaps, late []string
+	for _, g := range c.Gaps {
+		gaps = append(gaps, vh.Z(g))
+	}
+	for _, l := range c.Late {
+		late = append(late, fmt.Sprintf("(%s, %s)", vh.Z(l[0]), vh.Z(l[1])))
+	}
+	return fmt.Sprintf("(%s, %s, %s, %s, %s, %s, %s, %d, %s, %s, %s)", c.Opts.coq(), vh.Z(int64(c.N)), vh.Bool(c.PreClosed), vh.Bool(preCancel),
+		vh.List(p), stop, vh.Bool(c.Det), c.Calls, vh.Bool(c.Nil), vh.List(gaps), vh.List(late))
 }
 
 type wrapped struct{ inner error }
@@ -683,15 +771,32 @@ func runWMA(c wmaCase) wmaCase {
 	closer := make(chan struct{})
 	closed := false
 	ctx, cancel := context.WithCancel(context.Background())
+	if c.DeadlineNs > 0 {
+		ctx, cancel = context.WithTimeout(context.Background(), time.Duration(c.DeadlineNs))
+	}
 	defer cancel()
+	// when the loop was told to stop, completely: noted after close(closer)
+	// returned, resp. by a watcher after ctx.Done() was seen closed
+	var stopMu sync.Mutex
+	var stopTime time.Time
+	noteStop := func() {
+		stopMu.Lock()
+		if stopTime.IsZero() {
+			stopTime = time.Now()
+		}
+		stopMu.Unlock()
+	}
+	go func() { <-ctx.Done(); noteStop() }()
 	stop := func(which string) {
 		if which == "ctx" {
 			cancel()
 		} else if !closed {
 			closed = true
 			close(closer)
+			noteStop()
 		}
 	}
+	var prevEnd time.Time
 	if c.PreClosed {
 		stop("closer")
 	}
@@ -703,9 +808,23 @@ func runWMA(c wmaCase) wmaCase {
 	if guard < 3 {
 		guard = 3
 	}
-	fn := func() error {
+	fn := func() (err error) {
 		i := calls
 		calls++
+		start := time.Now()
+		if i > 0 {
+			c.Gaps = append(c.Gaps, int64(start.Sub(prevEnd)))
+			stopMu.Lock()
+			st := stopTime
+			stopMu.Unlock()
+			if !st.IsZero() && !st.After(start) {
+				c.Late = append(c.Late, [2]int64{int64(i - 1), int64(st.Sub(prevEnd))})
+			}
+		}
+		defer func() { prevEnd = time.Now() }()
+		if i == c.CancelAfter {
+			time.AfterFunc(time.Duration(c.CancelDelayNs), cancel)
+		}
 		if i == 0 && c.AsyncNs > 0 {
 			// the concurrent stop is timed from the first call of fn: launched
 			// before WithMaxAttempts it could fire before the loop even starts
@@ -755,7 +874,7 @@ func runWMA(c wmaCase) wmaCase {
 }
 
 func genWMA(rng *rand.Rand) wmaCase {
-	c := wmaCase{StopAt: -1, Det: true}
+	c := wmaCase{StopAt: -1, CancelAfter: -1, Det: true}
 	c.N = []int{-1, 0, 1, 1, 2, 2, 3, 3, 4, 6}[rng.Intn(10)]
 	short := optsJ{Init: 50000 + rng.Int63n(450000), Mult: []float64{0, 1, 1.5, 2}[rng.Intn(4)], RF: []float64{0, 0.25, 0.5}[rng.Intn(3)]}
 	short.Max = short.Init * 2
@@ -807,6 +926,21 @@ func genWMA(rng *rand.Rand) wmaCase {
 	case 5:
 		c.AsyncNs = 1 + rng.Int63n(3*short.Init)
 		c.Det = false
+	case 6:
+		// the context EXPIRES during the first wait (420 ms and more)
+		c.Opts = optsJ{Init: 420000000 + rng.Int63n(200000000), Mult: 1, RF: 0.25}
+		c.Opts.Max = c.Opts.Init
+		c.DeadlineNs = 15000000 + rng.Int63n(25000000)
+	case 7:
+		// the context is cancelled DURING a wait (after fn returned, long before the timer)
+		c.CancelAfter = rng.Intn(2)
+		c.CancelDelayNs = 8000000 + rng.Int63n(20000000)
+		if c.CancelAfter == 0 {
+			c.Opts = optsJ{Init: 420000000 + rng.Int63n(200000000), Mult: 1, RF: 0.25}
+			c.Opts.Max = c.Opts.Init
+		} else {
+			c.Opts = optsJ{Init: 100000 + rng.Int63n(400000), Mult: 1e8, RF: 0.25, Max: 420000000 + rng.Int63n(200000000)}
+		}
 	}
 	return runWMA(c)
 }
@@ -930,6 +1064,21 @@ func main() {
 		}
 	}
 	nsets += len(gentle)
+	// the schedule does not depend on the context: loops started with a
+	// deadline far shorter than their back-offs
+	ndls := 3
+	if thorough {
+		ndls = 40
+	}
+	for i := 0; i < ndls; i++ {
+		o := optsJ{Init: 1000000000 * (1 + rng.Int63n(20)), Mult: []float64{0, 1.5, 2}[rng.Intn(3)], RF: rfs[rng.Intn(5)]}
+		o.Max = o.Init * (1 + rng.Int63n(5))
+		dl := time.Duration(20+rng.Intn(800)) * time.Millisecond
+		for _, k := range []int{1, 2 + rng.Intn(3)} {
+			ris = append(ris, runRIDeadline(o, k, false, 25, rng.Int63(), dl))
+		}
+	}
+	nsets += ndls
 
 	// loops
 	nloops := 160
@@ -952,17 +1101,17 @@ func main() {
 	}
 	var wmas []wmaCase
 	fixedW := []wmaCase{
-		{Opts: optsJ{Init: 1000, Max: 10000}, N: 1, StopAt: -1, Det: true},                                   // n = 1, always failing
-		{Opts: optsJ{Init: 3600000000000, Max: 3600000000000}, N: 3, PreClosed: true, StopAt: -1, Det: true}, // closer closed before
-		{Opts: optsJ{Init: 3600000000000, Max: 3600000000000}, N: 3, PreCancel: true, StopAt: -1, Det: true},
-		{Opts: optsJ{Init: 1000, Max: 10000}, N: 3, Pattern: []bool{false, false, true}, StopAt: -1, Det: true},
-		{Opts: optsJ{Init: 1000, Max: 10000}, N: 3, Pattern: []bool{false, false, false, true}, StopAt: -1, Det: true},
-		{Opts: optsJ{Init: 1000, Max: 10000}, N: 0, Pattern: []bool{true}, StopAt: -1, Det: true},
+		{Opts: optsJ{Init: 1000, Max: 10000}, N: 1, StopAt: -1, CancelAfter: -1, Det: true},                                   // n = 1, always failing
+		{Opts: optsJ{Init: 3600000000000, Max: 3600000000000}, N: 3, PreClosed: true, StopAt: -1, CancelAfter: -1, Det: true}, // closer closed before
+		{Opts: optsJ{Init: 3600000000000, Max: 3600000000000}, N: 3, PreCancel: true, StopAt: -1, CancelAfter: -1, Det: true},
+		{Opts: optsJ{Init: 1000, Max: 10000}, N: 3, Pattern: []bool{false, false, true}, StopAt: -1, CancelAfter: -1, Det: true},
+		{Opts: optsJ{Init: 1000, Max: 10000}, N: 3, Pattern: []bool{false, false, false, true}, StopAt: -1, CancelAfter: -1, Det: true},
+		{Opts: optsJ{Init: 1000, Max: 10000}, N: 0, Pattern: []bool{true}, StopAt: -1, CancelAfter: -1, Det: true},
 		// fn fails with context errors of its own (outer context live), then succeeds / never succeeds
-		{Opts: optsJ{Init: 1000, Max: 10000}, N: 3, Pattern: []bool{false, true}, ErrKinds: []int{1}, StopAt: -1, Det: true},
-		{Opts: optsJ{Init: 1000, Max: 10000}, N: 3, Pattern: []bool{false, false, true}, ErrKinds: []int{2, 3}, StopAt: -1, Det: true},
-		{Opts: optsJ{Init: 1000, Max: 10000}, N: 4, ErrKinds: []int{4, 3, 2, 1}, StopAt: -1, Det: true},
-		{Opts: optsJ{Init: 1000, Max: 10000}, N: 1, ErrKinds: []int{3}, StopAt: -1, Det: true},
+		{Opts: optsJ{Init: 1000, Max: 10000}, N: 3, Pattern: []bool{false, true}, ErrKinds: []int{1}, StopAt: -1, CancelAfter: -1, Det: true},
+		{Opts: optsJ{Init: 1000, Max: 10000}, N: 3, Pattern: []bool{false, false, true}, ErrKinds: []int{2, 3}, StopAt: -1, CancelAfter: -1, Det: true},
+		{Opts: optsJ{Init: 1000, Max: 10000}, N: 4, ErrKinds: []int{4, 3, 2, 1}, StopAt: -1, CancelAfter: -1, Det: true},
+		{Opts: optsJ{Init: 1000, Max: 10000}, N: 1, ErrKinds: []int{3}, StopAt: -1, CancelAfter: -1, Det: true},
 	}
 	for _, c := range fixedW {
 		if hangs >= maxHangs && (c.PreClosed || c.PreCancel) {
@@ -972,6 +1121,15 @@ func main() {
 	}
 	for i := 0; i < nw; i++ {
 		wmas = append(wmas, genWMA(rng))
+	}
+
+	// loops whose context expires long before the back-off does
+	ndl := 10
+	if thorough {
+		ndl = 60
+	}
+	for i := 0; i < ndl; i++ {
+		loops = append(loops, genDeadlineLoop(rng, rng.Int63n(1<<40)))
 	}
 
 	// a long unbounded loop with a gentle multiplier: more than 64 retries
@@ -1101,6 +1259,10 @@ func main() {
 			wmaKinds["n<=0"]++
 		case c.PreClosed || c.PreCancel:
 			wmaKinds["stopped-before"]++
+		case c.DeadlineNs > 0:
+			wmaKinds["deadline-during-wait"]++
+		case c.CancelAfter >= 0:
+			wmaKinds["cancel-during-wait"]++
 		case c.AsyncNs > 0:
 			wmaKinds["async-cancel"]++
 		case c.StopAt >= 0:
